@@ -128,7 +128,7 @@ def c01_corpus(seed, tier):
 
 def c04_corpus(seed, tier):
     rng = random.Random(seed * 1000003 + 4)
-    R, K = (16, 64) if tier == "quick" else (300, 1000)
+    R, K = (16, 64) if tier == "quick" else (1500, 1000)
     S = Sched()
     kind = "XorShiftRng"
     for lo in range(0, 128, 64):
@@ -347,12 +347,37 @@ def jitter_case(rng, tier, style):
 def c12_corpus(seed, tier):
     rng = random.Random(seed * 1000003 + 12)
     S = Sched()
-    n = 40 if tier == "quick" else 600
+    n = 40 if tier == "quick" else 4000
     styles = [["random"], ["random", "const", "linear", "zero"], ["random", "backwards", "wild"],
               ["random", "big"], ["random", "hundreds", "const"], ["wild"], ["random", "zero", "const", "linear", "backwards", "big"]]
     for i in range(n):
         st = styles[i % len(styles)]
         S.case("jitter %s #%d" % ("+".join(st), i), jitter_case(rng, tier, st))
+    # every short sequence of measurement-level deltas over an alphabet chosen for the stuck test
+    # (zero, repeats, arithmetic progressions, sign changes); one next_u64 per instance so that the
+    # k-th measurement's delta is exactly the k-th letter
+    import itertools
+    alpha = [0, 3, 6, 9, 10, -3]
+    seqs = list(itertools.product(alpha, repeat=4))
+    seqs += [(c, d, 0, e, f) for c in (3, 6, 9) for d in (3, 6, 10) for e in (3, 6, 10, -3, -6) for f in (3, 6, 9, 12, 14, 20)]
+    if tier != "quick":
+        seqs += list(itertools.product([0, 3, 6, 9, 10, -3, 12, (1 << 31) - 1, -(1 << 31)], repeat=5))
+    tail = [17, 29, 41, 59, 73, 97, 113, 131, 157, 181, 211, 239, 263, 293]
+    chunk = 24
+    for lo in range(0, len(seqs), chunk):
+        ops = []
+        for k, sq in enumerate(seqs[lo:lo + chunk]):
+            rounds = 2 + (lo + k) % 2
+            t = rng.getrandbits(40) + (1 << 34)
+            rd = [t]
+            for D in list(sq) + tail:
+                a = (t + 1) & M64
+                t = (t + D) & M64
+                rd += [a, t, (t + 1) & M64]
+            g = k + 1
+            ops += [{"op": "timer", "t": g, "readings": [u64(x) for x in rd], "cont": CONT}, {"op": "jit_new", "g": g, "t": g},
+                    {"op": "set_rounds", "g": g, "r": rounds}, {"op": "next_u64", "g": g}]
+        S.case("jitter delta sequences %d.." % lo, ops, weight=chunk * 12)
     # the one documented panic
     sc = jitter_script(rng, [("random", 100)])
     S.case("jitter set_rounds(0)", [{"op": "timer", "t": 1, "readings": [u64(x) for x in sc], "cont": CONT},
@@ -409,7 +434,7 @@ def hostile_script(rng, kinds, total):
 def c14_jitter_corpus(seed, tier):
     rng = random.Random(seed * 1000003 + 14)
     S = Sched()
-    n = 30 if tier == "quick" else 400
+    n = 30 if tier == "quick" else 1500
     kindsets = [["edge"], ["pingpong"], ["decreasing"], ["wrap"], ["edge", "pingpong", "decreasing", "wrap", "wild", "zero"]]
     for i in range(n):
         ks = kindsets[i % len(kindsets)]
@@ -438,6 +463,20 @@ def c14_jitter_corpus(seed, tier):
         S.case("hostile test_timer %s #%d" % ("+".join(ks), i),
                [{"op": "timer", "t": 1, "readings": [u64(x) for x in sc], "cont": CONT},
                 {"op": "jit_new", "g": 1, "t": 1}, {"op": "test_timer", "g": 1}, {"op": "next_u32", "g": 1}], weight=500)
+    # a timer that stalls for thousands of readings (or a coarse clock read by a fast CPU): one output
+    # call then repeats thousands of stuck measurements before it can return
+    for i, (stall, rounds) in enumerate([(13500, 1)] if tier == "quick" else [(13500, 1), (15000, 2), (14000, 64)]):
+        t = rng.getrandbits(40) + 1
+        rd = [t, t + 55, t + 91, t + 140] + [t + 200] * stall
+        S.case("hostile jitter stall of %d readings" % stall,
+               [{"op": "timer", "t": 1, "readings": [u64(x) for x in rd], "cont": CONT},
+                {"op": "jit_new", "g": 1, "t": 1}, {"op": "set_rounds", "g": 1, "r": rounds}, {"op": "next_u64", "g": 1}, {"op": "next_u32", "g": 1}], weight=stall // 3)
+    if tier != "quick":
+        # millisecond clock: the value changes every 1500 readings
+        rd = [1_000_000 * (1 + k // 1500) for k in range(40000)]
+        S.case("hostile jitter coarse clock",
+               [{"op": "timer", "t": 1, "readings": [u64(x) for x in rd], "cont": CONT},
+                {"op": "jit_new", "g": 1, "t": 1}, {"op": "set_rounds", "g": 1, "r": 3}, {"op": "next_u64", "g": 1}], weight=14000)
     # targeted: probe deltas ..., -2^30-5, -2^30, +2^30: the variation sum sees delta - old = +2^31 while
     # every difference in the stuck test stays inside i32
     for shift in (0, 1, 2):
@@ -514,7 +553,7 @@ def c14_alg_corpus(seed, tier):
 
 
 # ---------------------------------------------------------------- C13: test_timer scripts
-def tt_script(rng, mean, zr=False, zd=False, back=0, mod=0, stuck=0, negalt=False):
+def tt_script(rng, mean, zr=False, zd=False, back=0, mod=0, stuck=0, negalt=False, backmode="small", pauses=0):
     """A 1601-reading timer script realising (approximately) an abstract summary of the 400 probes:
     probe j reads time, a, b, time2.  Evaluated probes (101..400) get deltas alternating x, x+mean
     so that the mean |delta variation| is `mean`; counts are planted on top.  The exact summary is
@@ -542,7 +581,10 @@ def tt_script(rng, mean, zr=False, zd=False, back=0, mod=0, stuck=0, negalt=Fals
             elif i < stuck + mod or (mod and i >= 300 - mod and stuck == 0):
                 d = 100 * (1 + (i % 7)) + (100 * v if i % 2 else 0)
             if i >= 300 - back:
-                d = -rng.randrange(1, 90)
+                # the second reading is smaller: by a little, or by so much that the 32-bit truncated delta is positive
+                d = -rng.randrange(1, 90) if backmode == "small" else -((1 << 32) - rng.randrange(20, 5000)) if backmode == "wrap32" else -(3 << 30) - rng.randrange(1, 99)
+            elif 100 <= i < 100 + pauses:
+                d = (1 << 31) + rng.randrange(1, 5000)      # a long pause: larger second reading, negative truncated delta
         gap = rng.randrange(10, 3000)
         time = (t + gap) & M64
         if zr and j == (57 if zd else 250):
@@ -568,8 +610,13 @@ def c13_corpus(seed, tier, cases):
     for c in cases:
         add("tt mean=%d zr=%s zd=%s back=%d mod=%d stuck=%d" % (c["mean"], c["zr"], c["zd"], c["back"], c["mod"], c["stuck"]),
             tt_script(rng, c["mean"], c["zr"], c["zd"], c["back"], c["mod"], c["stuck"], negalt=c["mean"] >= (1 << 30)))
+    # the order of the two readings of a probe vs the sign of their 32-bit truncated difference
+    for back, mode in ((3, "wrap32"), (4, "wrap32"), (9, "wrap32"), (4, "wrap30"), (3, "wrap30")):
+        add("tt backwards by ~2^32 x%d (%s)" % (back, mode), tt_script(rng, 40 + back, back=back, backmode=mode))
+    for pauses in (3, 4, 12):
+        add("tt forward pauses >= 2^31 x%d" % pauses, tt_script(rng, 50 + pauses, pauses=pauses))
     # seeded random timers
-    for i in range(6 if tier == "quick" else 120):
+    for i in range(6 if tier == "quick" else 500):
         style = rng.choice(["jit", "coarse", "const", "lin", "wild"])
         t = rng.getrandbits(40) + 1
         rd = [t]
@@ -612,7 +659,7 @@ def c15_schedule(seed, tier):
     for i in range(-1, 64):
         stir(["st", i], 0 if i < 0 else 1 << i)
     # NB: the linear part of "lp"/"lt" is taken relative to f(0) recorded with the same fixed argument
-    n = 40 if tier == "quick" else 1000
+    n = 40 if tier == "quick" else 4000
     for k in range(n):
         a, b = rng.getrandbits(64), rng.getrandbits(64)
         for which, v in (("a", a), ("b", b), ("ab", a ^ b)):
@@ -640,7 +687,7 @@ def block_alg_corpus(kind, seed, tier, n_unit_words, long_words, salt):
     for i, sd in enumerate(structured):
         S.case("%s structured %d" % (kind, i), [{"op": "from_seed", "g": 1, "kind": kind, "seed": sd},
                                                 {"op": nat, "g": 1, "n": n_unit_words}], weight=n_unit_words + 300)
-    for r in range(4 if tier == "quick" else 64):
+    for r in range(4 if tier == "quick" else 240):
         sd = [rng.getrandbits(8) for _ in range(32)]
         ops = [{"op": "from_seed", "g": 1, "kind": kind, "seed": sd}]
         left = n_unit_words * (1 if kind == "Hc128Rng" else 3)
@@ -649,7 +696,7 @@ def block_alg_corpus(kind, seed, tier, n_unit_words, long_words, salt):
             ops.append({"op": nat, "g": 1, "n": n})
             left -= n
         S.case("%s random %d" % (kind, r), ops, weight=n_unit_words * 3 + 300)
-    for r in range(1 if tier == "quick" else 12):
+    for r in range(1 if tier == "quick" else 28):
         sd = [rng.getrandbits(8) for _ in range(32)]
         ops = [{"op": "from_seed", "g": 1, "kind": kind, "seed": sd}]
         left = long_words
@@ -705,7 +752,7 @@ def c08_corpus(seed, tier, adversarial):
                 ops += [{"op": "from_seed", "g": 3, "kind": kind, "seed": sd}, {"op": nat, "g": 3, "n": 2}]
         S.case("%s zero and almost-zero seeds" % kind, ops)
         # u64 arguments: the adversarial ones (some seed word is zero), neighbours, random
-        xs = list(adversarial) + [(a + 1) & M64 for a in adversarial[:2]] + [0, 1, M64, 1 << 63] + [rng.getrandbits(64) for _ in range(4 if tier == "quick" else 40)]
+        xs = list(adversarial) + [(a + 1) & M64 for a in adversarial[:2]] + [0, 1, M64, 1 << 63] + [rng.getrandbits(64) for _ in range(4 if tier == "quick" else 400)]
         ops = []
         for x in xs:
             ops += [{"op": "seed_from_u64", "g": 1, "kind": kind, "x": u64(x)}, {"op": nat, "g": 1, "n": 3}]
@@ -745,7 +792,7 @@ def c09_corpus(seed, tier):
     heavy = {"Hc128Rng": 3, "IsaacRng": 3, "Isaac64Rng": 3}
     for kind in ALL_SEEDABLE:
         nat = native_op(kind)
-        nx = (4 if kind in heavy else 10) if tier == "quick" else (24 if kind in heavy else 80)
+        nx = (4 if kind in heavy else 10) if tier == "quick" else (60 if kind in heavy else 400)
         xs = [0, 1, M64, (-PHI) & M64, 1 << 32, 1 << 63][: (3 if kind in heavy and tier == "quick" else 6)] + [rng.getrandbits(64) for _ in range(nx)]
         ops = []
         for x in xs:
@@ -753,7 +800,7 @@ def c09_corpus(seed, tier):
         S.case("%s seed_from_u64 values" % kind, ops, weight=len(xs) * (300 if kind in heavy else 10))
         # from_rng: exactly one seed's worth (or the whole ISAAC state) from the cursor
         ops, sid = [], 1
-        for rep in range(2 if tier == "quick" else 8):
+        for rep in range(2 if tier == "quick" else 24):
             n = FROMRNG_LEN.get(kind, SEEDLEN[kind])
             b = [rng.getrandbits(8) for _ in range(2 * n + 7)]
             ops.append({"op": "src", "s": sid, "bytes": b})
@@ -970,9 +1017,9 @@ def c17_corpus(seed, tier, walks_by_kind):
     fixed = random.Random(17)
     seeds32 = [[fixed.getrandbits(8) for _ in range(32)] for _ in range(nseeds)] + [[0] * 32, [0xFF] * 32]
     for kind in ("Hc128Rng", "IsaacRng", "Isaac64Rng", "XorShiftRng"):
-        walks = list(walks_by_kind.get(kind, []))[: (4 if tier == "quick" else 30)]
+        walks = list(walks_by_kind.get(kind, []))[: (4 if tier == "quick" else 80)]
         bb = {"Hc128Rng": 64, "IsaacRng": 1024, "Isaac64Rng": 2048}.get(kind)
-        walks += [random_walk(rng, 25, WORDBYTES[kind], bb) for _ in range(3 if tier == "quick" else 20)]
+        walks += [random_walk(rng, 25, WORDBYTES[kind], bb) for _ in range(3 if tier == "quick" else 60)]
         for wi, w in enumerate(walks):
             w = w[:40]
             ops = []
@@ -1015,7 +1062,7 @@ def c19_corpus(seed, tier, scheds):
     S = Sched()
     kinds = ALL_SEEDABLE + ["JitterRng"]
     pairs = [(k, k) for k in kinds] + [(kinds[i], kinds[(i + 7) % len(kinds)]) for i in range(len(kinds))]
-    n = 60 if tier == "quick" else 1500
+    n = 60 if tier == "quick" else 4000
     pick = rng.sample(scheds, min(n, len(scheds)))
     for ci, sc in enumerate(pick):
         k1, k2 = pairs[ci % len(pairs)]
